@@ -5,7 +5,7 @@ CONSTANTS
   NSeed = 6
   GenDepth = 3
   HashDesign = "derived"
-SPECIFICATION RouteSpec
+SPECIFICATION RouteSpecAll
 VIEW View
 INVARIANT TypeOK
 INVARIANT Refines
